@@ -105,6 +105,7 @@ def gen(rng, n):
             scn['steps'][1]['listed_mounts'] = ['/'] + sorted(scn.get('mounts') or []) + [bind]
         scns.append(scn)
         metas.append({'ents': ents, 'own': own, 'user': user, 'home_trash': lay.home_trash})
+        scn['judge_meta'] = metas[-1]                     # so that a replay judges the same way
     return scns, metas
 
 
@@ -173,6 +174,7 @@ def followup_runs(run, followups, section='state-rm-empty'):
             s['steps'] = [{'cmd': 'rm', 'argv': [p], 'listdir': 'sorted'}, {'cmd': 'list', 'argv': [], 'listdir': 'sorted'}]
             scns.append(s)
             infos.append(('rm', d, p, L))
+            s['judge_meta'] = {'followup': infos[-1]}
         for delta, must in ((1, True), (0, False)):
             s = copy.deepcopy(scn)
             if d.startswith('?'):
@@ -186,25 +188,29 @@ def followup_runs(run, followups, section='state-rm-empty'):
                           {'cmd': 'list', 'argv': list(tdopt), 'listdir': 'sorted'}]
             scns.append(s)
             infos.append(('empty', d, p, L, must_go))
+            s['judge_meta'] = {'followup': infos[-1]}
     out = engine.run_all(run, 'rm-empty', scns)
     idx = {id(s): i for i, s in enumerate(scns)}
     for scn, res in out:
-        inf = infos[idx[id(scn)]]
-        run.count(section)
-        after = parse_list(res['steps'][1]['stdout'])
-        before = inf[3]
-        case = {'scenario': scn, 'target': [inf[1], esc(inf[2])], 'listed_before': before, 'listed_after': after, 'stderr': res['steps'][0]['stderr'][-300:]}
-        if inf[0] == 'rm':
-            want = [x for x in before if x[1] != inf[2]]
-            if sorted(after) != sorted(want):
-                run.fail('oracle', 'trash-rm given exactly the path trash-list prints did not remove exactly the entries with that path', case,
-                         key='rm-disagrees-with-list', section=section)
-        else:
-            must_go = inf[4]
-            gone = (inf[1], inf[2]) not in after or before.count((inf[1], inf[2])) > after.count((inf[1], inf[2]))
-            if gone != must_go:
-                run.fail('oracle', 'trash-empty DAYS does not decide by the date trash-list shows for the entry',
-                         dict(case, must_go=must_go), key='empty-disagrees-with-list', section=section)
+        judge_followup(run, scn, infos[idx[id(scn)]], res, section)
+
+
+def judge_followup(run, scn, inf, res, section):
+    run.count(section)
+    after = parse_list(res['steps'][1]['stdout'])
+    before = [tuple(x) for x in inf[3]]
+    case = {'scenario': scn, 'target': [inf[1], esc(inf[2])], 'listed_before': before, 'listed_after': after, 'stderr': res['steps'][0]['stderr'][-300:]}
+    if inf[0] == 'rm':
+        want = [x for x in before if x[1] != inf[2]]
+        if sorted(after) != sorted(want):
+            run.fail('oracle', 'trash-rm given exactly the path trash-list prints did not remove exactly the entries with that path', case,
+                     key='rm-disagrees-with-list', section=section)
+    else:
+        must_go = inf[4]
+        gone = (inf[1], inf[2]) not in after or before.count((inf[1], inf[2])) > after.count((inf[1], inf[2]))
+        if gone != must_go:
+            run.fail('oracle', 'trash-empty DAYS does not decide by the date trash-list shows for the entry',
+                     dict(case, must_go=must_go), key='empty-disagrees-with-list', section=section)
 
 
 def run(run, thorough):
@@ -249,6 +255,13 @@ def replay(run, payload):
         print(st['cmd'], st['argv'], 'exit', o['exit'], 'exc', o['exc'])
         print(esc(o['stdout'][:600]))
         print(esc(o['stderr'][:300]))
+    jm = scn.get('judge_meta')
+    if jm and 'followup' in jm:
+        judge_followup(run, scn, jm['followup'], res, 'replay')
+        return
+    if jm and 'ents' in jm and len(res['steps']) >= 2:
+        judge(run, scn, jm, res, [], section='replay')
+        return
     if len(scn['steps']) == 2 and scn['steps'][0]['cmd'] == 'list' and scn['steps'][1]['cmd'] == 'restore':
         if sorted(p for d, p in parse_list(res['steps'][0]['stdout'])) != sorted(p for d, p in parse_restore(res['steps'][1]['stdout'])):
             run.fail('oracle', 'trash-list and trash-restore disagree on the original location', case, key=payload.get('key'))
